@@ -8,6 +8,7 @@ import sys
 import warnings
 
 sys.dont_write_bytecode = True
+sys.set_int_max_str_digits(0)    # witnesses may hold very large ints; printing them must not raise
 os.environ.setdefault("PYTHONDONTWRITEBYTECODE", "1")
 
 VERIF_DIR = os.path.dirname(os.path.dirname(os.path.abspath(__file__)))
